@@ -212,6 +212,14 @@ def run(ck, model_ok):
                     rr = ('ok',) + tuple((o[0], o[1][:1]) if o[0] == 'err' else o for o in r[1:])
                 # recursion depth is interpreter-state dependent: compare only the class
                 if mm != rr and not (mm[0] == 'err' and rr[0] == 'err' and {mm[1][0], rr[1][0]} <= {'RecursionError', 'MetainfoError', 'BdecodeError'} and b'l' * 300 in x):
+                    try:
+                        import flatbencode
+                        gap = ml.url_model_gap(flatbencode.decode(x))
+                    except Exception:  # noqa
+                        gap = False
+                    if gap:
+                        ck.count('model:url-outside-the-url-model')      # is_url is a parameter of the theorems
+                        break
                     agree = False
                     ck.fail('tie', f'read_stream(validate={v})', case, repr(mm)[:300], repr(rr)[:300], 'model and implementation disagree')
                     break
